@@ -85,9 +85,13 @@ def main() -> int:
                 limits.append(name)
             continue
         others = sorted(k for k in fired if k != want)
-        print(f"{'CAUGHT' if own else 'MISSED-BY-OWN'} {name} (breaks {want}): own={fired.get(want, [])[:2]} others={others}" + (f" ERRORS={sorted(errs)}" if errs else ""))
-        if not own:
+        kmiss = json.loads(meta.read_text()).get("known_miss") if meta.exists() else None
+        print(f"{'CAUGHT' if own else ('KNOWN-MISS' if kmiss else 'MISSED-BY-OWN')} {name} (breaks {want}): own={fired.get(want, [])[:2]} others={others}" + (f" ERRORS={sorted(errs)}" if errs else "")
+              + (" [documented miss no longer applies]" if own and kmiss else ""))
+        if not own and not kmiss:
             own_miss.append(name)
+        if not own and kmiss:
+            limits.append(name)
     print(f"\n{len(res)} seeded changes; missed by the check of their own property: {own_miss}")
     if limits:
         print(f"documented limits (behaviour-preserving restructurings the checks still alarm on, see DESIGN.md 9.0e): {len(limits)}: {limits}")
